@@ -227,6 +227,7 @@ struct Lower {
     if (it != fnNames.end()) return it->second;
     std::string s;
     llvm::raw_string_ostream os(s);
+    if (F->isExternC() && !isa<CXXMethodDecl>(F)) return fnNames[F] = F->getName().str();
     if (auto* CD = dyn_cast<CXXConstructorDecl>(F)) MC->mangleName(GlobalDecl(CD, Ctor_Complete), os);
     else if (auto* DD = dyn_cast<CXXDestructorDecl>(F)) MC->mangleName(GlobalDecl(DD, Dtor_Complete), os);
     else MC->mangleName(GlobalDecl(F), os);
